@@ -28,7 +28,7 @@ CONFIGS = {
     # (decode_sig is cfg(signature-pgp) but used under cfg(signature-meta)); it is not analysed.
     "default": [],
 }
-QUICK_CONFIGS = ["default+bzip2"]
+QUICK_CONFIGS = ["default+bzip2", "default"]   # every codec arm present + the crate's own default feature set
 THOROUGH_CONFIGS = ["default+bzip2", "default", "no-default"]
 
 
